@@ -4,15 +4,28 @@
    consecutively in segment order then document order, dropped documents exactly those flagged,
    count = number of survivors.  Stored data, Fields, DocID/DocNumbers and the reported size are
    decided by the correspondence run against SpecMerge.spec_merge (DESIGN.md 6 C05). *)
-From Coq Require Import List Arith.
-Require Import ZV.Renum.
+From Coq Require Import List Arith NArith.
+Require Import ZV.Renum ZV.Spec ZV.SpecMerge ZV.SpecMergeProof.
 Import ListNotations.
 
 Theorem C05_renumber_partial : forall segs next,
-  let '(ms, nx) := renum segs next in
+  let '(ms, nx) := Renum.renum segs next in
   length ms = length segs /\
-  nx = next + survivors (concat segs) /\
-  somes (concat ms) = seq next (survivors (concat segs)) /\
+  nx = (next + Renum.survivors (concat segs))%nat /\
+  Renum.somes (concat ms) = seq next (Renum.survivors (concat segs)) /\
   (forall s d, nth d (nth s ms []) None = None <-> nth d (nth s segs []) true = true).
 Proof. exact C05_renumber. Qed.
 Print Assumptions C05_renumber_partial.
+
+(* the same facts for the EXECUTABLE specification the correspondence run compares the implementation
+   with (SpecMerge.renum over N, deletion lists): one map per input, survivors consecutive from `next`
+   in segment order then document order, the count, and dropped = exactly the deleted documents *)
+Theorem C05_spec_renumbering : forall segs next, (next + total_docs segs < dropped)%N ->
+  let '(ms, nx) := SpecMerge.renum segs next in
+  length ms = length segs /\
+  live_nums (concat ms) = nseqN next (total_surv segs) /\
+  nx = (next + N.of_nat (total_surv segs))%N /\
+  (forall s j n dr, nth_error segs s = Some (n, dr) -> (j < N.to_nat n)%nat ->
+     (nth j (nth s ms []) dropped = dropped <-> memN (N.of_nat j) dr = true)).
+Proof. exact SpecMergeProof.C05_spec_renumbering. Qed.
+Print Assumptions C05_spec_renumbering.
